@@ -3,11 +3,10 @@ Step-level theorems of Props/C04.lean: what `retire`, `<a/>`, `<resumed/>`, `<fa
 `<enabled/>` do to the retained queue.  No reachability.
 -/
 import Strophe.Lemmas.ConnC04Base
-import Strophe.Lemmas.ConnC13Tac
+import Strophe.Lemmas.ConnC04Tac
 
 namespace Strophe.Lemmas.ConnC04
 open Strophe Strophe.Conn
-open Strophe.Lemmas.ConnC13 (pred_ite pred_ite_fst pred_of_eq_fst pred_foldl)
 
 /-! ### numbering -/
 
@@ -341,6 +340,15 @@ theorem resumed_retransmits_exactly (c : Conn) (st : XTree) (ours : Bytes) (v : 
   · rw [f2, hsame.en]; rfl
   · exact ⟨_, by rw [f3, hsame.evs]; rfl⟩
 
+theorem resetSmForReconnect_same (c : Conn) :
+    let r := resetSmForReconnect c
+    r.sm.queue = c.sm.queue ∧ r.sm.sentNr = c.sm.sentNr ∧ r.sm.enabled = false ∧ r.tx = c.tx ∧ r.queue = c.queue ∧
+    r.state = c.state ∧ r.handlers = c.handlers ∧ r.idHandlers = c.idHandlers ∧ r.timed = c.timed ∧
+    r.hasSm = c.hasSm ∧ r.sm.id = none ∧ r.nextUid = c.nextUid ∧ r.evs = c.evs ∧ r.g = c.g := by
+  unfold resetSmForReconnect
+  dsimp only
+  split <;> exact ⟨rfl, rfl, rfl, rfl, rfl, rfl, rfl, rfl, rfl, rfl, rfl, rfl, rfl, rfl⟩
+
 /-! ### failed resumption -/
 
 /-- the retained queue is `q` -/
@@ -350,27 +358,27 @@ section
 variable {q : List (UInt32 × QElem)} {c : Conn}
 theorem QIs_triggerSmCallback (h : QIs q c) : QIs q (triggerSmCallback c) := h
 theorem QIs_addHandler {fn ud ns name type user} (h : QIs q c) : QIs q (addHandler c fn ud ns name type user) := by
-  cauto addHandler
+  c4auto addHandler
 theorem QIs_addIdHandler {fn id user} (h : QIs q c) : QIs q (addIdHandler c fn id user) := by
-  cauto addIdHandler
+  c4auto addIdHandler
 theorem QIs_addTimed {fn period user} (h : QIs q c) : QIs q (addTimed c fn period user) := by
-  cauto addTimed
+  c4auto addTimed
 theorem QIs_notify {e} (h : QIs q c) : QIs q (notify c e) := by
-  cauto notify
+  c4auto notify
 theorem QIs_pushRawWith {it o sn} (h : QIs q c) : QIs q (pushRawWith c it o sn) :=
   (pushRawWith_same c it o sn).smq.trans h
 theorem QIs_pushRaw {it o} (h : QIs q c) : QIs q (pushRaw c it o) := by
-  cauto pushRaw
+  c4auto pushRaw
 theorem QIs_sendStanza {it o} (h : QIs q c) : QIs q (sendStanza c it o) := by
-  cauto sendStanza
+  c4auto sendStanza
 theorem QIs_sendRawString {it} (h : QIs q c) : QIs q (sendRawString c it) := by
-  cauto sendRawString
+  c4auto sendRawString
 theorem QIs_xmppDisconnect (h : QIs q c) : QIs q (xmppDisconnect c) := by
-  cauto xmppDisconnect
+  c4auto xmppDisconnect
 theorem QIs_doBind (h : QIs q c) : QIs q (doBind c) := by
-  cauto doBind
+  c4auto doBind
 theorem QIs_negotiationSuccess (h : QIs q c) : QIs q (negotiationSuccess c) := by
-  cauto negotiationSuccess
+  c4auto negotiationSuccess
 end
 
 theorem ne_inf_fni : b "item-not-found" ≠ b "feature-not-implemented" := by decide
@@ -389,8 +397,8 @@ theorem failed_keeps_unhandled (c : Conn) (st cause : XTree)
   dsimp only
   rw [hinf]
   dsimp only [Option.getD_some]
-  rw [if_pos rfl, if_pos hres]
-  ctrav
+  simp only [hres, ↓reduceIte]
+  c4trav
   all_goals rfl
 
 /-! ### a new session after a failed resumption -/
